@@ -254,22 +254,37 @@ func stringsOfLine(line string) []string {
 	return out
 }
 
+// keyOf: canonical class of a failing input. String-level requests are classified by the one input
+// string (`C16:match:no-pipe-default`, `C16:match:pipe-empty-default`, else `C16:<op>`).
+// Document-level requests get `C16:doc:<op>`, suffixed with the class when the document contains a
+// string of one of the two classes (it may then be the same defect seen through FromBytes, or not:
+// the key is deliberately different from the string-level one).
 func keyOf(d *hx.Disagreement) string {
 	ws := strings.Fields(d.Request)
 	if len(ws) < 2 {
 		return "C16:?"
 	}
 	op := ws[1]
+	docKey := func(line string) string {
+		k := classKey(stringsOfLine(line), op)
+		if strings.HasPrefix(k, "C16:match:") {
+			return "C16:doc:" + op + ":" + strings.TrimPrefix(k, "C16:match:")
+		}
+		return "C16:doc:" + op
+	}
 	switch op {
-	case "re", "relegacy", "resolve", "resolvelegacy", "load", "loadlegacy":
+	case "re", "relegacy", "resolve", "resolvelegacy":
 		return classKey(stringsOfLine(d.Request), op)
+	case "load", "loadlegacy":
+		return docKey(d.Request)
 	case "get", "dump":
 		for i := d.LineNo; i >= 0 && i < len(d.Case.Lines); i-- {
 			w := strings.Fields(d.Case.Lines[i])
 			if len(w) > 1 && (w[1] == "load" || w[1] == "loadlegacy") {
-				return classKey(stringsOfLine(d.Case.Lines[i]), op)
+				return docKey(d.Case.Lines[i])
 			}
 		}
+		return "C16:doc:" + op
 	}
 	return "C16:" + op
 }
